@@ -22,7 +22,10 @@ pub enum Sess {
 }
 
 fn main() {
-    std::panic::set_hook(Box::new(|_| {}));
+    // HC_PANIC_VERBOSE=1 keeps the default hook (panic message and location on stderr) for investigating a replay
+    if std::env::var_os("HC_PANIC_VERBOSE").is_none() {
+        std::panic::set_hook(Box::new(|_| {}));
+    }
     let stdin = std::io::stdin();
     let stdout = std::io::stdout();
     let mut out = BufWriter::with_capacity(1 << 20, stdout.lock());
